@@ -9,6 +9,9 @@
 //   - the exchange-rate oracle: the module service "oracle" (oracle keeper's
 //     ModuleServiceRequest, host-clock dependent) is replaced through the exported
 //     Keeper.SetModuleService by a table lookup (`rates=` of the reset line, `set_rate`);
+//   - genesis round trips (C12), ops `export` / `reimport` / `prep_reimport`: the real ExportGenesis,
+//     ValidateGenesis, InitGenesis (module store wiped first) and PrepForZeroHeightGenesis on a cache
+//     context, a panic captured; the exported document is rendered in its own order;
 //   - a recording callback module "verifcb" is registered with the service keeper the same
 //     way the oracle and random keepers register theirs; every invocation is part of the
 //     observation of the operation during which it fired.
@@ -59,6 +62,7 @@ type R struct {
 	nonce   int
 	lastCtx sdk.Context
 	G       GenState
+	Genesis bool // generate the genesis round-trip ops (C12 runs only)
 }
 
 func New(env *hx.Env) *R {
@@ -500,6 +504,54 @@ func (r *R) state(ctx sdk.Context) string {
 		join(exph), join(bals), hx.Dash(strings.Join(r.cb, ",")))
 }
 
+// genesisLine renders the real exported document: definitions and bindings in the document's own order,
+// the two Go maps (withdraw addresses, request contexts) by key symbol / id.
+func (r *R) genesisLine(gs *types.GenesisState) string {
+	p := gs.Params
+	var defs, binds, wd, ctxs []string
+	for _, d := range gs.Definitions {
+		defs = append(defs, d.Name+":"+r.sym(d.Author))
+	}
+	for _, b := range gs.Bindings {
+		pr := "?"
+		if q, err := types.ParsePricing(b.Pricing); err == nil {
+			pr = r.pricingStr(q)
+		}
+		binds = append(binds, fmt.Sprintf("%s/%s:%s:%s:%d:%d:%d:%s", b.ServiceName, r.sym(b.Provider), r.sym(b.Owner),
+			coinsStr(b.Deposit), b2i(b.Available), b.DisabledTime.Unix(), b.QoS, pr))
+	}
+	for o, a := range gs.WithdrawAddresses {
+		wd = append(wd, r.sym(o)+":"+r.sym(a))
+	}
+	sort.Strings(wd)
+	for id, c := range gs.RequestContexts {
+		var ps []string
+		for _, q := range c.Providers {
+			ps = append(ps, r.sym(q))
+		}
+		ctxs = append(ctxs, fmt.Sprintf("%s:%s:%s:%s:%s:%d:%d:%d:%d:%d:%d:%d:%d:%d:%d:%d:%s", strings.ToLower(id), c.ServiceName, r.sym(c.Consumer),
+			hx.Dash(strings.Join(ps, "+")), coinsStr(c.ServiceFeeCap), c.Timeout, b2i(c.Repeated), c.RepeatedFrequency, c.RepeatedTotal,
+			c.BatchCounter, c.BatchRequestCount, c.BatchResponseCount, c.BatchResponseThreshold, int(c.BatchState), int(c.State),
+			c.ResponseThreshold, hx.Dash(c.ModuleName)))
+	}
+	sort.Strings(ctxs)
+	return fmt.Sprintf("gparams=%d:%d:%s:%s:%s:%d:%d:%s:%d gdefs=%s gbinds=%s gwd=%s gctxs=%s",
+		p.MaxRequestTimeout, p.MinDepositMultiple, coinsStr(p.MinDeposit), decStr(p.ServiceFeeTax), decStr(p.SlashFraction),
+		int64(p.ComplaintRetrospect/time.Second), int64(p.ArbitrationTimeLimit/time.Second), p.BaseDenom, b2i(p.RestrictedServiceFeeDenom),
+		hx.Dash(strings.Join(defs, ",")), hx.Dash(strings.Join(binds, ",")), hx.Dash(strings.Join(wd, ",")), hx.Dash(strings.Join(ctxs, ",")))
+}
+
+// AddrOrder lists the symbols of the account universe in the order of their bech32 strings (the order of
+// binding keys in the store); the reset line carries it to the model.
+func (r *R) AddrOrder() string {
+	var names []string
+	for n := range r.addrs {
+		names = append(names, n)
+	}
+	sort.Slice(names, func(i, j int) bool { return r.addrs[names[i]].String() < r.addrs[names[j]].String() })
+	return strings.Join(names, ",")
+}
+
 // ---------------------------------------------------------------- execution
 
 func (r *R) nextBlock(ctx sdk.Context, dt int64) (sdk.Context, bool) {
@@ -542,6 +594,35 @@ func (r *R) Exec(ctx sdk.Context, line string) (sdk.Context, string) {
 				break
 			}
 		}
+	case "export":
+		gs := svc.ExportGenesis(ctx, k)
+		v := "ok"
+		if err := types.ValidateGenesis(*gs); err != nil {
+			v = "err"
+		}
+		return ctx, fmt.Sprintf("ok validate=%s %s", v, r.genesisLine(gs))
+	case "reimport", "prep_reimport":
+		// the real functions on a cache context: a panic (InitGenesis on an invalid document, a failed
+		// refund in the prepare step) leaves the state as it was
+		try(func(c sdk.Context) error {
+			if f[1] == "prep_reimport" {
+				svc.PrepForZeroHeightGenesis(c, k)
+			}
+			gs := svc.ExportGenesis(c, k)
+			st := c.KVStore(r.key)
+			it := storetypes.KVStorePrefixIterator(st, nil)
+			var keys [][]byte
+			for ; it.Valid(); it.Next() {
+				keys = append(keys, append([]byte{}, it.Key()...))
+			}
+			it.Close()
+			for _, key := range keys {
+				st.Delete(key)
+			}
+			svc.InitGenesis(c, k, *gs)
+			svc.BeginBlocker(c, k) // the re-imported chain begins its first block (as `reset` does)
+			return nil
+		})
 	case "set_rate":
 		if a["rate"] == "-" {
 			delete(r.rates, a["denom"])
